@@ -129,7 +129,7 @@ def execute(G, c):
     if c.get("prior"):
         pm, pb = c["prior"]
         calls.insert(0, ("getnext", rb.oid_text(pb)) if pm == "getnext" else ((pm, rb.oid_text(pb), 7)))
-    outs = drivers.run_calls(G, c["driver"], cfg, calls, handler, timeout=2.0, max_steps=len(c["mib"]) + 3, max_items=len(c["mib"]) + 5,
+    outs = drivers.run_calls(G, c["driver"], cfg, calls, handler, timeout=5.0, max_steps=len(c["mib"]) + 3, max_items=len(c["mib"]) + 5,
                              **({"session_kw": kw["session_kw"]} if "session_kw" in kw else {}))
     if len(outs) == 2:
         pb = c["prior"][1]
